@@ -8,10 +8,10 @@ import sys; sys.path.insert(0,'tools')
 import vlib
 vlib.build_lib('K','rel'); vlib.cc_harness('K','rel','kernel_replay')
 PY
-for pf in wait res pool buf queue cond end rec mix contend order condmany condorder soup soupfix; do
+for pf in wait res pool buf queue cond end rec mix contend order condmany condorder soup soupfix soupfix2; do
  ( python3 tools/kgen.py $SEED $N $pf > out/K/g_$pf.txt; ./build/K/rel/kernel_replay run out/K/g_$pf.txt out/K/g_$pf.ndjson 2>out/K/g_$pf.err
    cd spec && TRACE=/verif/out/K/g_$pf.ndjson timeout 1200 tlc -workers 1 -metadir /tmp/km_$pf -config KMonTrace.cfg KMonTrace.tla > /verif/out/K/mon_$pf.txt 2>&1; rm -rf /tmp/km_$pf ) &
 done; wait
-for pf in wait res pool buf queue cond end rec mix contend order condmany condorder soup soupfix; do echo "== $pf: crashes=$(grep -c Crash out/K/g_$pf.ndjson) rejects=$(grep -c REJECT out/K/mon_$pf.txt) consumed=$(grep -c CONSUMED out/K/mon_$pf.txt) err=$(grep -c '^Error' out/K/mon_$pf.txt)"; done
+for pf in wait res pool buf queue cond end rec mix contend order condmany condorder soup soupfix soupfix2; do echo "== $pf: crashes=$(grep -c Crash out/K/g_$pf.ndjson) rejects=$(grep -c REJECT out/K/mon_$pf.txt) consumed=$(grep -c CONSUMED out/K/mon_$pf.txt) err=$(grep -c '^Error' out/K/mon_$pf.txt)"; done
 cat out/K/mon_*.txt | grep -o '"C[0-9]*:[a-z-]*"' | sort | uniq -c | sort -rn
 grep -h "Fatal" out/K/g_*.err | sed 's/^[^a-z]*//' | sed 's/, seed.*//' | cut -c1-160 | sort | uniq -c | sort -rn | head
